@@ -50,4 +50,21 @@ var specs = map[string]*propSpec{
 		},
 		ExpectProbes: []string{"auto_defrag", "forced_defrag", "reopen_clean", "crash_in_sync", "crash_in_defrag", "crash_in_background_goroutine", "torn_write_images", "concurrent_clients", "peersdb_style_expiry"},
 	},
+	"C16": {
+		ID: "C16", Harness: "blockdbsim", Level: "exploration", Chunk: 25,
+		Quick:    tierParams{Runs: 1500, BudgetS: 60, PerRunS: 120, RaceRuns: 80, RaceBudgetS: 30, ShrinkAttempts: 200, ShrinkS: 60},
+		Thorough: tierParams{Runs: 60000, BudgetS: 900, PerRunS: 300, RaceRuns: 3000, RaceBudgetS: 300, ShrinkAttempts: 600, ShrinkS: 240},
+		Rule: "one case = option set (compression, cache 1-8, max data-file size 4 KiB-1 MiB or unlimited, files to keep 0-3, backup) + 2-40 blocks of 81 B-1 MiB (4 MB and the 16 MB flush threshold in a few thorough/quick cases; five content classes for snappy) + history of add / re-add trusted / get (3 API paths) / length / trusted / invalid / idle / tick / close+reopen, the writer on one simulated goroutine and 0-3 reader goroutines, + scheduler seed. Oracle: map model hash->(bytes, trusted, height, txs, invalid) with data-file assignment observed from the effect log (retention rule), exact index listing after every reopen, append-after-reopen, porcupine on concurrent histories. distinct_nontrivial = distinct (schedule-trace hash, final-state hash) among runs with >=2 goroutine switches.",
+		Components: map[string][]string{
+			"real":      {"lib/chain/blockdb.go (instrumented)", "lib/others/snappy (as is)", "lib/btc hashing (as is)"},
+			"simulated": append([]string{"disk (simos pass-through + effect log)", "client goroutines (1 writer, 0-3 readers)", "LRU clock ticks"}, commonSim...),
+			"restated":  {"btc.Block values are built by the harness (Raw, Hash=sha256d(Raw[:80]), TxCount, Trusted) without parsing"},
+		},
+		Assumptions: []string{
+			"writers (add/idle/invalid/trusted/close) run on one goroutine, as in the client; readers are concurrent",
+			"a block that was marked invalid is not re-added; BlockInvalid is not called on trusted blocks (it panics by design)",
+			"crash points and truncations of the block files are exercised under C07, not here (C16 quantifies over histories and configurations)",
+		},
+		ExpectProbes: []string{"datfile_rollover", "datfile_removed", "reopen", "concurrent_phases", "invalid_written_block", "invalid_queued_block", "readd_as_trusted"},
+	},
 }
